@@ -605,9 +605,47 @@ func c12GenField(t *rapid.T, fd protoreflect.FieldDescriptor, depth int, g c12Ge
 	return f
 }
 
+var c12ListGroups = map[protoreflect.FullName]map[protoreflect.FieldNumber]bool{}
+
+// c12SameTypeLists: the repeated fields of md that share their element type with another
+// repeated field of md (six hook lists; args/env; ...).
+func c12SameTypeLists(md protoreflect.MessageDescriptor) map[protoreflect.FieldNumber]bool {
+	c12CountMu.Lock()
+	defer c12CountMu.Unlock()
+	if g, ok := c12ListGroups[md.FullName()]; ok {
+		return g
+	}
+	by := map[string][]protoreflect.FieldNumber{}
+	fs := md.Fields()
+	for i := 0; i < fs.Len(); i++ {
+		if fd := fs.Get(i); fd.IsList() {
+			k := fd.Kind().String()
+			if fd.Kind() == protoreflect.MessageKind {
+				k = string(fd.Message().FullName())
+			}
+			by[k] = append(by[k], fd.Number())
+		}
+	}
+	g := map[protoreflect.FieldNumber]bool{}
+	for _, nums := range by {
+		if len(nums) >= 2 {
+			for _, n := range nums {
+				g[n] = true
+			}
+		}
+	}
+	c12ListGroups[md.FullName()] = g
+	return g
+}
+
 func c12GenMsg(t *rapid.T, md protoreflect.MessageDescriptor, depth int, g c12GenCfg) C12Msg {
 	var out C12Msg
 	fs := md.Fields()
+	// with some weight all repeated fields that share an element type are made non-empty
+	// (several hook lists at once, args next to env): neighbours in memory for a decoder
+	// that allocates them together
+	group := c12SameTypeLists(md)
+	boost := len(group) > 0 && c12Gen8.Draw(t, "lists-together") >= 5
 	thr := g.thrAt(depth)
 	if fs.Len() == 1 && thr > 2 {
 		thr = 2 // a wrapper / single-field message that is populated at all mostly has its field
@@ -615,14 +653,19 @@ func c12GenMsg(t *rapid.T, md protoreflect.MessageDescriptor, depth int, g c12Ge
 	for i := 0; i < fs.Len(); i++ {
 		fd := fs.Get(i)
 		// shrinks towards "unset"
-		if c12Gen8.Draw(t, string(fd.Name())+"?") < thr {
+		forced := boost && group[fd.Number()]
+		if c12Gen8.Draw(t, string(fd.Name())+"?") < thr && !forced {
 			continue
 		}
 		isMsg := fd.Kind() == protoreflect.MessageKind || (fd.IsMap() && fd.MapValue().Kind() == protoreflect.MessageKind)
-		if isMsg && depth >= g.maxDepth && c12Gen8.Draw(t, "placeholder") < 4 {
+		if isMsg && depth >= g.maxDepth && !forced && c12Gen8.Draw(t, "placeholder") < 4 {
 			continue // depth bound: below maxDepth sub-messages are absent or present-but-empty
 		}
-		out.F = append(out.F, c12GenField(t, fd, depth, g))
+		f := c12GenField(t, fd, depth, g)
+		if forced && len(f.L) == 0 {
+			f.L, f.Empty = []C12Val{c12GenElem(t, fd, depth, g)}, false
+		}
+		out.F = append(out.F, f)
 	}
 	return out
 }
